@@ -16,13 +16,18 @@ EXTENDS Templates, Mime
 \* ---------- data ----------
 \* raw table (as logged / generated): Seq([root, routes : Seq([m, p, cons, prod, conds, noct])])
 \* request: [m, path, ct, acc, clen, clh, conds : Seq(Nat)]
-PrepRoute(root, r) ==
+\* RouteBuilder.copyDefaults: a route without Produces / Consumes of its own inherits the WebService's
+\* (field names wprod / wcons are optional in logged tables: absent means none)
+WsProd(s) == IF "wprod" \in DOMAIN s THEN s.wprod ELSE <<>>
+WsCons(s) == IF "wcons" \in DOMAIN s THEN s.wcons ELSE <<>>
+PrepRoute(root, r, wprod, wcons) ==
   LET full == FullTemplate(root, r.p) IN
   [m |-> r.m, p |-> r.p, full |-> full, pt |-> ParseTemplate(full),
-   cons |-> r.cons, prod |-> r.prod, conds |-> SeqToSet(r.conds), noct |-> r.noct]
+   cons |-> IF r.cons = <<>> THEN wcons ELSE r.cons, prod |-> IF r.prod = <<>> THEN wprod ELSE r.prod,
+   conds |-> SeqToSet(r.conds), noct |-> r.noct]
 PrepService(s) ==
   [root |-> s.root, rt |-> ParseTemplate(s.root),
-   routes |-> [i \in 1..Len(s.routes) |-> PrepRoute(s.root, s.routes[i])]]
+   routes |-> [i \in 1..Len(s.routes) |-> PrepRoute(s.root, s.routes[i], WsProd(s), WsCons(s))]]
 Prepare(services) == [i \in 1..Len(services) |-> PrepService(services[i])]
 
 \* ---------- specificity ----------
